@@ -429,12 +429,41 @@ def row_owner(row):
   if v == 'M': return next((x.split(':')[0] for x in row[1:3] if ':' in x), row[1])
   return None
 
+CONST_RE = re.compile(r'^(Bits\d+\(|int\()')
+LAZY_RE = re.compile(r'\[\d+:\d+\]$')
+
+def row_names(row):
+  out = []
+  for x in row[1:]:
+    if isinstance(x, str): out.append(x.replace('<deleted>', ''))
+    elif isinstance(x, tuple): out += [y.replace('<deleted>', '') for y in x if isinstance(y, str)]
+  return out
+
 def scope(row, slots):
-  """is the entry owned by a component of a replaced slot ('in-slot'), by a surviving component ('outside-slot'), or unowned"""
+  """structural position of a divergent entry (part of the violation key; no design-specific names):
+     owned entries   owner-removed  the owning block has no host any more (entry contributed by a removed component)
+                     outside-slot   owned by a live component and referring INTO a replaced slot strictly below that component
+                     in-slot        owned by a component inside a replaced slot (contribution of the new subtree)
+                     unrelated      owned by a component outside every replaced slot, not referring into one
+     unowned entries const          adjacency entry with a constant endpoint
+                     lazy-slice     a lazily created slice signal (name ends in [lo:hi])
+                     entry          anything else"""
   o = row_owner(row)
-  if o is None: return ''
+  names = row_names(row)
+  if o is None:
+    if row[0] == 'adj' and any(CONST_RE.match(x) for x in names): return ':const'
+    if row[0] in ('sig', 'obj', 'sigset') and names and LAZY_RE.search(names[-1]): return ':lazy-slice'
+    return ':entry'
   if '<no-host>' in o: return ':owner-removed'
-  return ':in-slot' if any(o == s_ or o.startswith(s_ + '.') for s_ in slots) else ':outside-slot'
+  below = [s_ for s_ in slots if s_.startswith(o + '.')]
+  if any(n == s_ or n.startswith(s_ + '.') for n in names for s_ in below): return ':outside-slot'
+  if any(o == s_ or o.startswith(s_ + '.') for s_ in slots): return ':in-slot'
+  return ':unrelated'
+
+def frames(e):
+  """innermost two frames of an exception: part of the key of a crash"""
+  tb = [f for f in traceback.extract_tb(e.__traceback__) if os.path.basename(f.filename) != 'c15.py']
+  return '>'.join(f.name for f in tb[-2:])
 
 def classify(row, side):
   stale = any(isinstance(x, str) and ('<deleted>' in x or '<no-host>' in x) for x in row) or \
@@ -478,7 +507,7 @@ def run_history(ctx, tag, src, history, params, cases, meta, expect_hier=None, f
         table[slot] = (lambda c_, k_: (lambda *a, **kw: c_(k_)))(newc, k)
     except Exception as e:
       tb = traceback.extract_tb(e.__traceback__)[-1]
-      ctx.violation(f'C15:replace-raises-{type(e).__name__}:{tb.name}',
+      ctx.violation(f'C15:replace-raises-{type(e).__name__}:{frames(e)}',
                     f'{tag}: {"replace_component" if mode == "cls" else "replace_component_with_obj"}({slot}, {cname}) raises {type(e).__name__}: {str(e)[:200]} (in {tb.name}, {os.path.basename(tb.filename)}:{tb.lineno}); '
                     f'building the same design directly succeeds', dict(replay, failing_step=[slot, mode, cname, k], traceback=traceback.format_exc()[-1500:]))
       ok = False; break
@@ -498,7 +527,7 @@ def run_history(ctx, tag, src, history, params, cases, meta, expect_hier=None, f
           [(r, 'only-scratch') for r in sorted((rows_s | ex_s) - (rows_r | ex_r), key=repr)]
   seen = set()
   for row, side in diffs:
-    key = f'C15:{classify(row, side)}-{VIEW_OF.get(row[0], row[0])}{scope(row, [h[0] for h in history]) or ":entry"}'
+    key = f'C15:{classify(row, side)}-{VIEW_OF.get(row[0], row[0])}{scope(row, [h[0] for h in history])}'
     if key in seen: continue
     seen.add(key)
     same = [r for r, s_ in diffs if s_ == side and r[0] == row[0]]
@@ -528,7 +557,7 @@ def run_history(ctx, tag, src, history, params, cases, meta, expect_hier=None, f
                       dict(replay, first_difference=d, input_seed=seed))
     except Exception as e:
       tb = traceback.extract_tb(e.__traceback__)[-1]
-      ctx.violation(f'C15:sim-crash-{type(e).__name__}:{tb.name}', f'{tag}: the replaced design cannot be simulated ({type(e).__name__}: {str(e)[:150]} in {tb.name}, {os.path.basename(tb.filename)}:{tb.lineno}) while the direct build simulates',
+      ctx.violation(f'C15:sim-crash-{type(e).__name__}:{frames(e)}', f'{tag}: the replaced design cannot be simulated ({type(e).__name__}: {str(e)[:150]} in {tb.name}, {os.path.basename(tb.filename)}:{tb.lineno}) while the direct build simulates',
                     dict(replay, traceback=traceback.format_exc()[-1500:]))
   for f in ('/tmp/upblk-dag.gv', '/tmp/upblk-dag.gv.pdf'):
     try: os.remove(f)
